@@ -915,7 +915,7 @@ func (vm *VM) throw(err *RuntimeError, noTrace bool) error {
 	}
 
 	// firstly check our frame has error handler
-	if vm.curFrame.errHandlers.hasHandler() {
+	if vm.curFrame.errHandlers.usableHandler() != nil {
 		return vm.handleThrownError(vm.curFrame, err)
 	}
 
@@ -926,7 +926,7 @@ func (vm *VM) throw(err *RuntimeError, noTrace bool) error {
 	for index >= 0 {
 		f := &(vm.frames[index])
 		err.addTrace(getFrameSourcePos(f))
-		if f.errHandlers.hasHandler() {
+		if f.errHandlers.usableHandler() != nil {
 			frame = f
 			break
 		}
@@ -954,17 +954,18 @@ func (vm *VM) throw(err *RuntimeError, noTrace bool) error {
 }
 
 func (vm *VM) handleThrownError(frame *frame, err *RuntimeError) error {
-	handler := frame.errHandlers.last()
+	handler := frame.errHandlers.usableHandler()
+	if handler == nil {
+		// callers check that the frame has a usable handler
+		return err
+	}
 	handler.err = err
 
-	// if we have catch>0 goto catch else follow finally (one of them must be set)
+	// if we have catch>0 goto catch else follow finally (one of them is set)
 	if handler.catch > 0 {
 		vm.ip = handler.catch - 1
-	} else if handler.finally > 0 {
-		vm.ip = handler.finally - 1
 	} else {
-		frame.errHandlers.pop()
-		return vm.throw(err, false)
+		vm.ip = handler.finally - 1
 	}
 
 	if vm.sp >= handler.sp {
@@ -1468,6 +1469,21 @@ func (t *errHandlers) last() *errHandler {
 
 func (t *errHandlers) hasHandler() bool {
 	return t != nil && len(t.handlers) > 0
+}
+
+// usableHandler returns the innermost handler that can still take an error.
+// Handlers that already entered their finally block cannot catch an error
+// thrown from it, they are complete and removed here, so that the error goes
+// to the next enclosing handler of the same frame before the calling frames.
+func (t *errHandlers) usableHandler() *errHandler {
+	for t != nil && len(t.handlers) > 0 {
+		h := &t.handlers[len(t.handlers)-1]
+		if h.catch > 0 || h.finally > 0 {
+			return h
+		}
+		t.handlers = t.handlers[:len(t.handlers)-1]
+	}
+	return nil
 }
 
 func (t *errHandlers) findFinally(upto int) int {
